@@ -420,6 +420,17 @@ def run(ctx):
     ctx.notes.append('to_posit rounding cells: the sticky position (and, for negative Q16E1/Q32E2 states, the lowest set bit) is sampled (3-4 values per cell) except for Q8E0 in the thorough tier')
     ctx.count('to_posit_rounding_cells', rc)
     ctx.count('to_posit_rounding_cells_proved', rp)
+    # QPLACE: every base accumulate spelling applied to the cleared quire with a single posit p (the other factor ONE) leaves exactly +p / -p:
+    # to_posit of the result is p resp. -p for every bit pattern p (regime cells; to_posit itself is proved above)
+    import rules_routing
+    import rules_rounding as RR
+    from interp import _static_frame
+    ctx.rules.append('QPLACE: (ZERO op p).to_posit() == +/-p for every p and every base spelling (+= p, -= p, +=/-= (p, ONE), (ONE, p), add_product / sub_product)')
+    ptasks = placement_tasks(prog, ctx.tier)
+    st_ = RR.run_parallel(ctx, prog, ptasks, prefix='placement_')
+    pc, pp = st_['cells'], st_['proved']
+    ctx.count('placement_cells_total', pc)
+    ctx.count('placement_cells_proved_total', pp)
     ctx.require('C04 predicate cells decided', npred, 500)
     ctx.require('C04 accumulate head cells decided', nacc, 300)
     ctx.require('C04 operand spellings', nsp, 48)
